@@ -8,13 +8,17 @@ import (
 	"context"
 	"fmt"
 	"io"
+	"runtime"
 	"sort"
 	"strings"
 	"sync"
 	"time"
 
+	"github.com/cockroachdb/pebble"
+
 	"github.com/oxia-db/oxia/proto"
 	"github.com/oxia-db/oxia/server"
+	"github.com/oxia-db/oxia/server/kv"
 )
 
 // ---------------------------------------------------------------- C15
@@ -70,9 +74,13 @@ func (wl *w2Workload) checkIndexQueries(g *Rng, n int) {
 			if refCompare(a, b) > 0 {
 				a, b = b, a
 			}
+			if g.Chance(20) {
+				a = "" // open start: everything of this index below b, and nothing of any other index
+				wl.r.Count("index_ranges_open_start", 1)
+			}
 			var want []string
 			for _, e := range ents {
-				if refCompare(e.Sec, a) >= 0 && refCompare(e.Sec, b) < 0 {
+				if (a == "" || refCompare(e.Sec, a) >= 0) && refCompare(e.Sec, b) < 0 {
 					want = append(want, e.Prim)
 				}
 			}
@@ -566,7 +574,46 @@ func (wl *w2Workload) checkNotifStream(s *notifSubscriber, final bool) {
 	wl.r.Count("notif_batches_checked", int64(len(bs)))
 }
 
+// trimHold: the directed schedule "a write commits while a trimming round is in progress" (see runC17).
+var trimHold struct {
+	mu    sync.Mutex
+	armed bool
+	ch    chan struct{}
+	hold  time.Duration
+}
+
+func inTrimmerGoroutine() bool {
+	var pcs [32]uintptr
+	n := runtime.Callers(2, pcs[:])
+	fr := runtime.CallersFrames(pcs[:n])
+	for {
+		f, more := fr.Next()
+		if strings.Contains(f.Function, "notificationsTrimmer") {
+			return true
+		}
+		if !more {
+			return false
+		}
+	}
+}
+
 func runC17(r *Run) {
+	trimHold.mu.Lock()
+	trimHold.armed = false
+	trimHold.mu.Unlock()
+	kv.SimBeforeCommit = func(*pebble.DB) {
+		trimHold.mu.Lock()
+		if !trimHold.armed || !inTrimmerGoroutine() {
+			trimHold.mu.Unlock()
+			return
+		}
+		trimHold.armed = false
+		ch, d := trimHold.ch, trimHold.hold
+		trimHold.mu.Unlock()
+		close(ch)
+		time.Sleep(d)
+	}
+	defer func() { kv.SimBeforeCommit = nil }()
 	// retention: an hour (nothing is trimmed within a run) or short enough for trimming rounds
 	// to run between the operations of the program
 	rg := NewRng(r.Seed, "c17-retention")
@@ -662,6 +709,27 @@ func runC17(r *Run) {
 				}
 			case k < 38:
 				wl.createSession(300000)
+			case k >= 86 && k < 90 && retention < time.Hour: // a write that lands inside a trimming round
+				// everything stored expires; the next round of the trimmer is held right before it commits
+				// its deletion (it has already looked at what is stored) and a write commits meanwhile
+				time.Sleep(time.Duration(float64(retention) * 1.05))
+				ch := make(chan struct{})
+				trimHold.mu.Lock()
+				trimHold.armed, trimHold.ch = true, ch
+				trimHold.hold = time.Duration(gi.Range(20, 400)) * time.Millisecond
+				trimHold.mu.Unlock()
+				select {
+				case <-ch:
+					wl.doWrite(wl.genRequest(gi))
+					wl.prog = append(wl.prog, "age "+retention.String()+"+ and write inside the trimming round")
+					r.Count("writes_inside_trimming_round", 1)
+					time.Sleep(500 * time.Millisecond)
+				case <-time.After(retention/5 + 2*time.Second):
+					trimHold.mu.Lock()
+					trimHold.armed = false
+					trimHold.mu.Unlock()
+					r.Count("trimming_round_not_seen", 1)
+				}
 			case k >= 90 && retention < time.Hour: // let batches age (fractions of the retention time)
 				d := time.Duration(float64(retention) * []float64{0.15, 0.35, 0.6, 0.8, 1.05}[gi.Intn(5)])
 				time.Sleep(d)
